@@ -84,6 +84,7 @@ func Main(c *run.Ctx) {
 		c.Floor("route:"+r, 1, 0)
 	}
 	c.Floor("canary pushes acknowledged and found intact", total/4, 0)
+	c.Floor("multi-portion bodies pushed while another client pushes", total/200, 0)
 	c.Floor("multi-portion bodies uploaded slowly while every INSERT fails", c.Pick(10, 200), 0)
 }
 
@@ -170,6 +171,46 @@ func Child(c *run.Ctx, name string) {
 			c.Floor("multi-portion bodies uploaded slowly while every INSERT fails", 0, 1)
 			if br.Status >= 200 && br.Status < 300 {
 				c.Cover("db-down big body", "answered 2xx (C01's subject)", 1)
+			}
+		}
+		if gi%100 == 57 {
+			// a body of several MiB (the parser hands it on in portions while it is still reading), whole or cut off
+			// near its end, while another client's well-formed pushes arrive: the portions already handed on are being
+			// copied into the shared batch while the parser works on the next one
+			rr := c.Rng(fmt.Sprintf("c05/big/%d", gi))
+			proto := []string{"loki-json-values", "loki-json-entries", "loki-json-values"}[rr.Intn(3)]
+			// either every stream is a portion of its own, or one stream crosses the portion size and short ones follow
+			// (the next portion is then ready microseconds after the first was handed on)
+			lo := gen.LogOpts{ID: fmt.Sprintf("bg%d", gi), Proto: proto, Streams: 6, MaxEntries: 3, BaseNs: 1700000000000000000, Huge: true}
+			if rr.Intn(2) == 0 {
+				lo.Huge, lo.Big, lo.Streams = false, true, 2+rr.Intn(4)
+			}
+			big := gen.Render(rr, proto, gen.NewLogCase(rr, lo))
+			cut := rr.Intn(2) == 0
+			if cut {
+				big.Body = big.Body[:len(big.Body)-1-rr.Intn(2000)]
+			}
+			if rr.Intn(3) == 0 {
+				big.SlowUploadMs = 2 // otherwise at full speed: the parser is never short of bytes
+			}
+			var wgb sync.WaitGroup
+			var side []*chw.Item
+			wgb.Add(1)
+			go func() {
+				defer wgb.Done()
+				for k := 0; k < 4; k++ {
+					cn := mkCanary(1000000 + gi*8 + k)
+					cn.Rec = sess.Send(2, &cn.Req)
+					side = append(side, cn)
+				}
+			}()
+			br := sess.Send(3, &big)
+			wgb.Wait()
+			canaries = append(canaries, side...)
+			c.Floor("multi-portion bodies pushed while another client pushes", 0, 1)
+			c.Cover("big body", fmt.Sprintf("%s one-portion-per-stream=%v cut=%v answered %dxx", proto, lo.Huge, cut, br.Status/100), 1)
+			if br.Status == 0 {
+				c.Undecided("multi-portion body unanswered (" + clipS(br.Err, 100) + ")")
 			}
 		}
 		rec := sess.Send(1, &hc.Req)
